@@ -26,6 +26,13 @@ def check_self(spec):
         with quiet():
             P = Atoms(elements=list(P.elements), positions=np.array(P.positions))
         sp, rp = P, P.copy()
+    elif spec.get('shared'):
+        # occurrences that share an atom (C N C, C N C N C: every N / inner C belongs to two C-N occurrences); replacing the pattern by itself keeps all of them
+        from bounded import C07
+        S = C07.chain(spec['shared'])
+        case = dict(structure=S, cell=np.asarray(S.cell))
+        sp, _ = C07.pats('keep-both')
+        rp = sp.copy()
     else:
         case = repl.planted(spec['cell'], spec['pair'], spec['copies'], spec['seed'])
         sp, _ = repl.patterns(spec['pair'])
@@ -110,6 +117,13 @@ def run(rec, tier, seed):
             spec = dict(cell=cell, pair=pair, copies=3, seed=seed * 10 + pi + ci, rng=pi)
             msg = check_self(spec)
             rec.case(repr(sorted(spec.items())), group='self', sample=spec if len(rec.samples) < 2 else None)
+            if msg:
+                rec.fail('selfrepl', 'self-replacement', "%s on %r" % (msg, spec), spec, 'C08/self-replacement')
+    for shared in ('CNC', 'CNCNC'):
+        for rng in (0, 1):
+            spec = dict(shared=shared, rng=rng)
+            msg = check_self(spec)
+            rec.case(repr(sorted(spec.items())), group='self-shared-atoms')
             if msg:
                 rec.fail('selfrepl', 'self-replacement', "%s on %r" % (msg, spec), spec, 'C08/self-replacement')
     for pi, pair in enumerate(['single-swap', 'swap-element', 'collinear-swap', 'nudge-swap']):
